@@ -444,6 +444,17 @@ func raceReplaySeed(p string) (int64, bool) {
 	return body.Case.Seed, true
 }
 
+func soakReplay(p string) (soakCase, bool) {
+	var body struct {
+		Case soakCase `json:"case"`
+	}
+	b, err := os.ReadFile(p)
+	if err != nil || json.Unmarshal(b, &body) != nil || body.Case.Kind != "soak" {
+		return soakCase{}, false
+	}
+	return body.Case, true
+}
+
 func readerReplay(p string) (readerCase, bool) {
 	var body struct {
 		Case readerCase `json:"case"`
@@ -485,6 +496,7 @@ func loadCases(o *vh.Opts) (replay []histCase, corpus []histCase) {
 
 func main() {
 	raceOnly := flag.Bool("raceonly", false, "run only the racing-acquisitions part (usable under go run -race)")
+	soakOnly := flag.Bool("soakonly", false, "run only the recycle soak")
 	part := flag.String("part", "", "internal: 'late' runs the readers / misuse scripts / race part in a child process")
 	o := vh.ParseOpts()
 	r := vh.NewRng(o.Seed)
@@ -493,7 +505,7 @@ func main() {
 	}
 	sum := vh.NewSummary("C12", o,
 		"operation histories (CreateNode/CreateXMLNode/CreateJSONNode, AddChild, RemoveAndReleaseTree) on the real idr API with pooling on and off, "+
-			"plus trees handed out by the seven readers; non-trivial = the history contains a removal followed by a creation that got a pooled node back; "+
+			"plus trees handed out by the seven readers, racing acquisitions on 16 goroutines and a recycle soak (one node, and a parent with 3 children, released and re-created 2^24+2^16 times next to nodes that stay live; every new ID compared with all held IDs); non-trivial = the history contains a removal followed by a creation that got a pooled node back; "+
 			"distinct by (pooling, operation list)")
 	cw := vh.NewCaseWriter(o, "C12", "Base.Tree Model.Heap", "c12case", "check_case")
 	cw.PerFile = 100 // elaborating the case terms dominates the cost of a shard
@@ -520,8 +532,49 @@ func main() {
 			os.Exit(0)
 		}
 	}
+	// ---- recycle soak: the same node(s) recycled millions of times ----
+	runSoak := func(only *soakCase) {
+		single, tree := 1<<24+1<<16, 1<<24+1<<16
+		if o.Tier == "thorough" {
+			single, tree = 1<<26, 1<<25
+		}
+		plans := []soakCase{{Kind: "soak", Variant: "single-node", Iterations: single}, {Kind: "soak", Variant: "small-tree", Iterations: tree}}
+		if only != nil {
+			plans = []soakCase{*only}
+		}
+		for _, pl := range plans {
+			at, what, reused := recycleSoak(pl.Variant, pl.Iterations)
+			sum.Count(fmt.Sprintf("soak|%s|%d", pl.Variant, pl.Iterations), false)
+			sum.Hist("soak:" + pl.Variant)
+			sum.Extra["soak_"+pl.Variant+"_iterations"] = pl.Iterations
+			sum.Extra["soak_"+pl.Variant+"_reacquisitions_of_the_first_nodes"] = reused
+			if what != "" {
+				pl.FailedAt = at
+				sum.Fail("recycle soak ("+pl.Variant+"): held nodes must carry pairwise distinct IDs: "+what, pl, nil)
+			}
+		}
+	}
 	if *raceOnly {
 		runRace()
+	}
+	if *soakOnly {
+		runSoak(nil)
+		fmt.Printf("soak: failures=%d extra=%v\n", len(sum.Failures), sum.Extra)
+		for _, f := range sum.Failures {
+			fmt.Println(f.What)
+		}
+		return
+	}
+	if *part == "late" && o.Replay != "" {
+		if sc, ok := soakReplay(o.Replay); ok {
+			if sc.FailedAt > 0 && sc.FailedAt+1 < sc.Iterations {
+				sc.Iterations = sc.FailedAt + 1
+			}
+			sc.FailedAt = 0
+			runSoak(&sc)
+			sum.Write(o)
+			return
+		}
 	}
 	if *part == "late" && o.Replay != "" {
 		// child process replaying one reader case
@@ -545,8 +598,10 @@ func main() {
 		// transform named in current.json
 		progressFile = filepath.Join(o.Out, "current.json")
 		readerTrees(r, sum, cw, o.Count(12, 400))
+		_ = os.Remove(progressFile)
 		progressFile = ""
 		misuseScripts(sum, cw)
+		runSoak(nil)
 		runRace()
 		cw.Flush()
 		sum.CaseFiles = cw.Files
@@ -554,8 +609,9 @@ func main() {
 		return
 	}
 	if o.Replay != "" {
-		if _, ok := readerReplay(o.Replay); ok {
-			// replay of a reader failure: that transform only, in a child process
+		_, isSoak := soakReplay(o.Replay)
+		if _, ok := readerReplay(o.Replay); ok || isSoak {
+			// replay of a reader or soak failure: that case only, in a child process
 			runLate(o, sum, cw)
 			sum.CaseFiles = cw.Files
 			sum.Write(o)
